@@ -7,6 +7,7 @@
  "stubs": ["map notifier callback (records calls)", "calloc/malloc/realloc (scripted: succeed)"],
  "expect_classes": ["assertion"], "timeout": 300,
  "variants": [{"vname": "parked", "defines": ["-DV_PARKED"]}, {"vname": "other", "defines": ["-DV_OTHER"]}, {"vname": "abandon", "defines": ["-DV_ABANDON"]},
+              {"vname": "parked_twice", "defines": ["-DV_PARKED", "-DV_TWO_ITERS"]},
               {"vname": "parked_then_rest", "defines": ["-DV_PARKED", "-DV_THEN_REST"]}]}
 */
 /* Removing an entry while a trie iterator is open (C18) -- "remove reports success exactly when the key was
@@ -15,6 +16,8 @@
  * trie is exactly the dictionary of the surviving entries.
  *  abandon: no removal; the iterator is abandoned part-way (iter_free while parked): its reference is released;
  *  other : the removed key is not the one the iterator is parked on (passes);
+ *  parked_twice: TWO iterators are positioned on the entry that is removed (seed C18-m4): the emptied node must stay
+ *          until BOTH have moved on; each continues with the remaining keys;
  *  parked_then_rest: the parked key is removed, then EVERY other key as well (C18: "removing any entry ... the last
  *          remaining one, or all of them"); the iterator then reports the end; no freed memory is touched -- in
  *          particular the emptied node the iterator is still positioned on must not be released together with its
@@ -40,6 +43,14 @@ static void verif_case(unsigned mask, unsigned descending)
 	}
 	ASSUME(parked >= 0);
 	TD_iters[parked] = 1;
+#ifdef V_TWO_ITERS
+	void *val2 = NULL;
+	qb_map_iter_t *it2 = trie_iter_create(&t->map, NULL);
+	ASSUME(it2 != NULL);
+	const char *key2 = trie_iter_next(it2, &val2);
+	POST(key2 == key, "two fresh iterators start with the same key");
+	TD_iters[parked] = 2;
+#endif
 #ifdef V_ABANDON
 	tr_check_state(t);
 	trie_iter_free(it);
@@ -102,6 +113,21 @@ static void verif_case(unsigned mask, unsigned descending)
 #endif
 		POST(idx >= 0 && TD[idx] != NULL && idx != parked, "the iteration continues with a key that is still present");
 	}
+#ifdef V_TWO_ITERS
+	/* the first iterator has moved on; the second one is still positioned on the emptied node */
+	key2 = trie_iter_next(it2, &val2);
+	if (key2 != NULL) {
+		int idx2 = -1;
+		for (i = 0; i < TR_NU; i++) {
+			if (key2 == tr_ukeys[i]) {
+				idx2 = (int)i;
+			}
+		}
+		POST(idx2 >= 0 && TD[idx2] != NULL && idx2 != parked, "the iteration continues with a key that is still present");
+	}
+	POST(key2 == key, "both iterators continue with the same next key");
+	trie_iter_free(it2);
+#endif
 	trie_iter_free(it);
 	TD_iters[parked] = 0;
 	tr_check_state(t);     /* once the iterator is gone the trie is exactly the dictionary of the survivors */
